@@ -9,7 +9,7 @@ from .. import core, gen, hist, model, peers
 from ..session import Outcome
 from . import PropBase, steps_with_ids
 
-FAULTS = ("clear", "clear_typing", "twin", "peer_failure", "shrink", "stack")
+FAULTS = ("clear", "clear_typing", "twin", "peer_failure", "shrink", "stack", "exhaust_scan")
 PEERS = ("default", "json", "tag")
 
 
@@ -45,9 +45,16 @@ class C02(PropBase):
         mods = [m["name"] for m in world["modules"]]
         env = self.base_env(rng, fault_free=not sw)
         pool = []
+        # bytes-like types named through wrappers: still carried verbatim
+        m0 = world["modules"][0]
+        for d in ({"d": "alias", "n": "VwBytesS", "string": True, "t": {"k": "bytes"}}, {"d": "newtype", "n": "VwBytesN", "t": {"k": "bytes"}},
+                  {"d": "alias", "n": "VwBytesA", "t": {"k": "bytearray"}}):
+            m0["decls"].append(d)  # (not offered to the type generator: only ever the root type)
+            lk[(m0["name"], d["n"])] = {"m": m0["name"], "n": d["n"], "decl": d, "cat": d["d"], "hashable": False, "rec": False, "key_ok": False}
         for t in gen.root_types(view, rng, cfg, rng.randint(1, 4)):
-            if rng.random() < 0.08:
-                t = {"k": rng.choice(["bytes", "bytearray"])}
+            if rng.random() < 0.16:
+                t = rng.choice([{"k": "bytes"}, {"k": "bytearray"}, {"k": "ref", "m": m0["name"], "n": "VwBytesS"}, {"k": "ref", "m": m0["name"], "n": "VwBytesS"}, {"k": "ref", "m": m0["name"], "n": "VwBytesN"},
+                                {"k": "ref", "m": m0["name"], "n": "VwBytesA"}])
             vals = [gen.gen_value(rng, t, lk, cfg) for _ in range(rng.randint(1, 2))]
             if "twin" in sw:
                 # values that compare (and hash) equal to one already in the pool but are written
@@ -72,6 +79,8 @@ class C02(PropBase):
             mod = rng.choice(mods)
             if r < 0.4:
                 steps.append({"op": "codec_get", "t": t, "peer": peer, "mod": mod})
+                if "exhaust_scan" in sw and rng.random() < 0.6:
+                    steps[-1]["scan"] = True  # first requested from every stack depth at which the request cannot complete
                 codecs.append((len(steps) - 1, core.jdump(t), peer, mod))
                 continue
             step = {"op": "agree", "t": t, "v": copy.deepcopy(rng.choice(vals)), "peer": peer, "mod": mod}
@@ -111,6 +120,8 @@ class C02(PropBase):
             kw = {}
             if enc:
                 kw["encoder"], kw["decoder"] = enc, dec
+            if step.get("scan"):
+                sess.scan_exhaust(step, typelib.codec, T, **kw)
             out = sess.guarded(sess.call, step, typelib.codec, T, **kw)
             if out.ok:
                 sess.results[step["id"]] = out.value
@@ -262,7 +273,7 @@ def _identity(x):
 
 
 def _is_bytes_t(t) -> bool:
-    return t["k"] in ("bytes", "bytearray")
+    return t["k"] in ("bytes", "bytearray") or (t["k"] == "ref" and t["n"] in ("VwBytesS", "VwBytesN", "VwBytesA"))
 
 
 def _has_nonfinite(x) -> bool:
